@@ -1,4 +1,4 @@
 From Coq Require Extraction ExtrOcamlBasic.
-From Verif Require Import model.Body.
+From Verif Require Import model.ReqBody.
 Extraction Language OCaml.
-Extraction "../ocaml/build/mC04.ml" corr_C04.
+Extraction "../ocaml/build/mC04.ml" corr_C04_all.
